@@ -113,6 +113,8 @@ static Json::Value genC11(Rng& rng) {
   plan["ops"] = ops;
   plan["interval"] = rng.pick({1, 2, 5});
   plan["ticks"] = ticks;
+  if (rng.chance(0.4))
+    addTickDelays(rng, plan, ticks);
   plan["clock_off"] = (Json::Int64)rng.range(0, 999999999);
   (void)any;
   return plan;
